@@ -632,14 +632,21 @@ impl Backend for RtWorld {
                 }
                 let mut objects = Vec::new();
                 let mut truncated = false;
-                if let Some(d) = dir {
+                // S3 matches plain string prefixes over keys in byte order
+                'dirs: for d in s3sim::matching_dirs(&self.site, prefix) {
                     if let Some(g) = self.owner_of(d) {
                         let gen = &self.gens[&g];
-                        let k = gen.stamps.len();
-                        truncated = k > max;
-                        for i in 0..k.min(max) {
+                        for i in 0..gen.stamps.len() {
+                            let key = format!("{}/{}/{}", self.site, d, chunk_file_name(&gen.prefix, i + 1));
+                            if !key.starts_with(prefix.as_str()) {
+                                continue;
+                            }
+                            if objects.len() == max {
+                                truncated = true;
+                                break 'dirs;
+                            }
                             objects.push(ListedObject {
-                                key: format!("{}/{}/{}", self.site, d, chunk_file_name(&gen.prefix, i + 1)),
+                                key,
                                 last_modified: s3sim::rfc3339_ms(gen.stamps[i], true),
                                 size: (100 + i * 7).to_string(),
                             });
